@@ -343,7 +343,7 @@ impl Property for C40b {
             .boxed()
     }
     fn budget(&self, tier: Tier) -> Budget {
-        Budget::new(tier.pick(800, 32_000), tier.pick(8, 16)).min_nontrivial(tier.pick(60, 2_000)).case_timeout(180)
+        Budget::new(tier.pick(480, 32_000), tier.pick(8, 16)).min_nontrivial(tier.pick(60, 2_000)).case_timeout(180)
     }
     fn rule(&self) -> String {
         "listing table over a temp dir (Parquet/CSV), all caches on, list-files TTL with an injected clock; history of add / in-place rewrite \
